@@ -142,6 +142,7 @@ fn worker(mode: &str, shard: usize, nshards: usize, seed: u64, tier: &str, out: 
         "C13" => m_uci::worker_c13(shard, nshards, seed, tier, out),
         "C15" => m_mem::worker(shard, nshards, seed, tier, out),
         "C15bin" => m_membin::worker_bin(shard, nshards, seed, tier, out),
+        "C15asan" => m_membin::worker_asan(shard, nshards, seed, tier, out),
         "C17" => m_text::worker(shard, nshards, seed, tier, out),
         "C17cmd" => m_textcmd::worker_cmd(shard, nshards, seed, tier, out),
         "C14" => m_uci::worker_c14(shard, nshards, seed, tier, out),
@@ -231,6 +232,7 @@ fn worker(mode: &str, shard: usize, nshards: usize, seed: u64, tier: &str, out: 
         "C14" => m_uci::worker_c14(shard, nshards, seed, tier, out),
         "C19" => m_uci::worker_c19(shard, nshards, seed, tier, out),
         "C15bin" => m_membin::worker_bin(shard, nshards, seed, tier, out),
+        "C15asan" => m_membin::worker_asan(shard, nshards, seed, tier, out),
         "C17cmd" => m_textcmd::worker_cmd(shard, nshards, seed, tier, out),
         "replay" => {
             let text = std::fs::read_to_string(&_extra[0]).expect("read replay file");
